@@ -38,6 +38,16 @@ var runnerNoAST string
 //go:embed tmpl/main.go.txt
 var mainSrc string
 
+//go:embed tmpl/runner_shipped.go.txt
+var runnerShipped string
+
+// RawPackage is a prepared package (generated parser plus helper files) for BuildRaw.
+type RawPackage struct {
+	Name   string
+	Struct string            // parser type name, for the generic runner
+	Files  map[string][]byte // file name -> content (package clauses already rewritten)
+}
+
 // Variant is one option set of the generator.
 type Variant struct {
 	Name                  string
@@ -214,6 +224,47 @@ func Build(c *drv.Ctx, cases []*Case, variants []Variant, opt Options) (*Lab, er
 				must(tAST.Execute(&rb, data))
 			}
 			must(os.WriteFile(filepath.Join(pd, "runner.go"), rb.Bytes(), 0o644))
+		}
+	}
+	return l.finish(c, opt, start)
+}
+
+// BuildRaw compiles prepared packages with the generic single-entry runner.
+func BuildRaw(c *drv.Ctx, raws []RawPackage, opt Options) (*Lab, error) {
+	start := time.Now()
+	labSeq++
+	dir := filepath.Join(c.Scratch, fmt.Sprintf("lab%d-%d", os.Getpid(), labSeq))
+	if err := os.MkdirAll(filepath.Join(dir, "proto"), 0o755); err != nil {
+		return nil, err
+	}
+	l := &Lab{Dir: dir, Pkgs: map[string]*Package{}, Race: opt.Race, ctx: c}
+	if err := os.WriteFile(filepath.Join(dir, "go.mod"), []byte("module lab\n\ngo 1.25\n"), 0o644); err != nil {
+		return nil, err
+	}
+	_ = os.WriteFile(filepath.Join(dir, "proto", "proto.go"), []byte(protoSrc), 0o644)
+	tr := template.Must(template.New("s").Parse(runnerShipped))
+	for _, r := range raws {
+		pd := filepath.Join(dir, r.Name)
+		_ = os.MkdirAll(pd, 0o755)
+		for name, b := range r.Files {
+			_ = os.WriteFile(filepath.Join(pd, name), b, 0o644)
+		}
+		var rb bytes.Buffer
+		if err := tr.Execute(&rb, map[string]any{"Pkg": r.Name, "Struct": r.Struct}); err != nil {
+			return nil, err
+		}
+		_ = os.WriteFile(filepath.Join(pd, "verif_runner.go"), rb.Bytes(), 0o644)
+		l.Pkgs[r.Name] = &Package{Name: r.Name}
+		l.Order = append(l.Order, r.Name)
+	}
+	return l.finish(c, opt, start)
+}
+
+func (l *Lab) finish(c *drv.Ctx, opt Options, start time.Time) (*Lab, error) {
+	dir := l.Dir
+	must := func(err error) {
+		if err != nil {
+			panic(err)
 		}
 	}
 	// compile every package; identify the ones that do not build
